@@ -19,6 +19,10 @@ def scenario_nodes():
     img["enc"] = {"kind": "redump", "key": KEY, "regions": [[0, 2], [4, 6], [7, 8]], "sectors": 8, "extraLen": 0, "plainName": "plain_game"}
     img["vcid"] = "plain_game"          # a redump image with its key beside it is served decrypted (C11)
     nodes.append(img)
+    # a raw CD image (2336-byte sectors, PLAYSTATION signature): its sector size is probed at open
+    ss = 2336
+    nodes.append(srv.fnode(["a", "psx.bin"], 2 * 1024 * 1024 + 2336 * 3, cid="s_psx", mtime=t + 9,
+                           marks=[{"off": srv.pos(24 + 16 * ss + 8), "tag": "PSX"}]))
     k = srv.fnode(["PS3ISO", "game.dkey"], 32, cid="dkey", mtime=t + 8)
     k["raw"] = KEY.encode().hex()
     nodes.append(k)
@@ -32,6 +36,8 @@ SESSIONS = {
              {"op": "READ_FILE_CRITICAL", "limit": 4096, "off": 57344}, {"op": "OPEN_FILE", "path": "/***DVD***/a"}, {"op": "READ_FILE", "limit": 100, "off": 100000}],
     "enc": [{"op": "OPEN_FILE", "path": "/PS3ISO/game.iso"}, {"op": "READ_FILE", "limit": 5000, "off": 6000}, {"op": "READ_FILE_CRITICAL", "limit": 2048, "off": 4096},
             {"op": "OPEN_FILE", "path": "/CLOSEFILE"}],
+    "cd": [{"op": "OPEN_FILE", "path": "/a/psx.bin"}, {"op": "READ_CD_2048", "start": 1, "count": 2}, {"op": "READ_CD_2048", "start": 5, "count": 1},
+           {"op": "STAT_FILE", "path": "/a/psx.bin"}],
     "listing": [{"op": "OPEN_DIR", "path": "/a"}, {"op": "READ_DIR_ENTRY"}, {"op": "READ_DIR_ENTRY"}, {"op": "READ_DIR_ENTRY_V2"}, {"op": "READ_DIR"},
                 {"op": "OPEN_DIR", "path": "/a/sub"}, {"op": "READ_DIR"}, {"op": "OPEN_DIR", "path": "/a"}, {"op": "READ_DIR_ENTRY_V2"}, {"op": "GET_DIR_SIZE", "path": "/a"}],
     "upload": [{"op": "CREATE_FILE", "path": "/a/up.bin"}, {"op": "WRITE_FILE", "plen": 70000, "chunk": "u1"}, {"op": "WRITE_FILE", "plen": 5, "chunk": "u2"},
@@ -120,7 +126,7 @@ def run(tier, seed, replay=None):
         B = 1500
         for b in range(0, len(worlds), B):
             srv.run_and_validate(ctx, worlds[b:b + B], rep, max_rejections=12)
-        rep.cov["rule"] = ("scenarios {plain file, generated image with lazily opened members, encrypted image with key lookup, directory "
+        rep.cov["rule"] = ("scenarios {plain file, generated image with lazily opened members, encrypted image with key lookup, raw CD image with sector-size probe, directory "
                            "enumeration by all three commands, upload} x endings {close, reset, read timeout, bad opcode, truncated request} at "
                            "request indices; one run per filesystem operation index with an injected error and one with a short read/write "
                            "(%d operations in the clean run), plus random pairs; observed: open/close ledger, serveConn goroutines, responses "
